@@ -7,6 +7,7 @@ symbol, written below from the SI brochure; composition / round-trip / identity 
 """
 import itertools
 from fractions import Fraction
+import common
 from common import frac, rstr, rparse, close
 
 ID = "C06"
@@ -66,13 +67,29 @@ def rand_dim(rng, lo=-4, hi=4):
     return (rng.randint(lo, hi), rng.randint(lo, hi), rng.randint(lo, hi))
 
 
+_UT = [0]
+
+
 def units_text(sys, dim, rng=None):
-    """a unit string denoting (sys, dim) using only base symbols ('.' form)"""
+    """a unit string denoting (sys, dim) using only base symbols; spellings are varied deterministically: '.' form,
+    '/' before a factor with the sign of its exponent flipped (also a NEGATIVE written exponent after '/': a/b-2 = a.b2),
+    exponent 1 written out, ASCII 'u' for 'µ'"""
+    _UT[0] += 1
+    k = _UT[0]
     parts = []
-    for sym, e in zip(sys, dim):
+    for j, (sym, e) in enumerate(zip(sys, dim)):
         if e != 0:
-            parts.append(sym if e == 1 else "%s%d" % (sym, e))
-    return ".".join(parts)
+            parts.append((sym, e))
+    out = ""
+    for j, (sym, e) in enumerate(parts):
+        sep = "."
+        if j > 0 and (k + j) % 3 == 0:
+            sep, e = "/", -e
+        txt = sym if (e == 1 and (k + j) % 5 != 0) else "%s%d" % (sym, e)
+        out += (sep if j > 0 else "") + txt
+    if k % 4 == 0:
+        out = out.replace("µ", "u")
+    return out
 
 
 def impl_objs():
@@ -140,6 +157,42 @@ def run(ctx):
             mv = rparse(r["ok"])
             if got_err is not None or not close(got, mv, rel=TOL):
                 ctx.disagree("conv_factor", case, got if got_err is None else got_err, r["ok"])
+
+    # ---------------------------------------------------------------- 1b. extreme units x exponents up to +-6 on all three
+    # bases at once (factors between 1e-150 and 1e+150): the factor is a product of per-base ratios, each exact to an ulp
+    ext = {"space": ["km", "fm", "µm", "m"], "time": ["h", "fs", "s"], "quantity": ["kmol", "molecule", "fmol"]}
+    ecases = []
+    for _ in range(ctx.n(120, 4000)):
+        U = (rng.choice(ext["space"]), rng.choice(ext["time"]), rng.choice(ext["quantity"]))
+        V = (rng.choice(ext["space"]), rng.choice(ext["time"]), rng.choice(ext["quantity"]))
+        d = tuple(rng.choice([-6, -5, 5, 6, rng.randint(-6, 6)]) for _k in range(3))
+        ecases.append((U, V, d))
+    ecases += [(("km", "h", "kmol"), ("fm", "fs", "molecule"), (-6, -6, 6)), (("fm", "fs", "molecule"), ("km", "h", "kmol"), (-6, -6, 6)),
+               (("km", "s", "molecule"), ("fm", "s", "molecule"), (-6, 0, 0)), (("fm", "fs", "kmol"), ("km", "h", "molecule"), (6, 6, 6))]
+    for U, V, d in ecases:
+        spec = si_factor(U, d) / si_factor(V, d)
+        # stay inside the range of doubles whatever the order of the three per-base factors: sum of |log10| below 280
+        import math
+        mags = 0.0
+        for kk in range(3):
+            dk = [0, 0, 0]
+            dk[kk] = d[kk]
+            rk = si_factor(U, dk) / si_factor(V, dk)
+            mags += abs(math.log10(rk.numerator) - math.log10(rk.denominator))
+        if mags > 280:
+            ctx.count("factor_extreme_outside_double_range_skipped")
+            continue
+        case = {"src": U, "dst": V, "dim": d}
+        ctx.case(("x", U, V, d), nontrivial=(U != V))
+        ctx.count("factor_extreme")
+        try:
+            got = ccf(UnitsSystem(*U), UnitsSystem(*V), UnitsDimensions(*d))
+            back = UnitValue(3.0, mk_units(U, d)).convert(UnitsSystem(*V)).convert(UnitsSystem(*U)).value
+        except Exception as ex:  # noqa
+            got, back = "error:" + type(ex).__name__, None
+        if isinstance(got, str) or not close(got, spec, rel=TOL) or back is None or not close(back, Fraction(3), rel=TOL):
+            ctx.violation("factor:extreme", "conversion factor %s^%s -> %s is %r (SI scaling gives %s), there-and-back of 3.0 gives %r"
+                          % (U, d, V, got, common.fstr(spec), back), case, impl={"factor": got, "back": back}, expected=rstr(spec))
 
     # ---------------------------------------------------------------- 2. random conversions, five target forms
     n = ctx.n(1500, 40000)
@@ -373,6 +426,10 @@ def run(ctx):
             txt = sym if e == 1 else "%s%d" % (sym, e)
             ops.append({"op": "parse_units", "s": txt})
             meta.append((sym, e, txt))
+            if sym.startswith("µ"):          # the documented ASCII spelling: uL, uM
+                txt2 = txt.replace("µ", "u")
+                ops.append({"op": "parse_units", "s": txt2})
+                meta.append((sym, e, txt2))
     res = ctx.model.run(ops)
     for (sym, e, txt), r in zip(meta, res):
         if sym in VOLUME:
